@@ -1,16 +1,31 @@
 import VelaVerif.Lemmas.SrcNumericUtil
 import VelaVerif.Model.Cascade
 import VelaVerif.Gen.SrcCascadeBuilder
+import VelaVerif.Model.Box
+import VelaVerif.Gen.SrcGraphOptimiserUtil
+import VelaVerif.Lemmas.SrcShape4d
 /-!
 # C10 (source tie) — translated `cascade_builder.rolling_buffer_shape` equals `Model/Cascade.lean`
 
 `Gen/SrcCascadeBuilder.lean` is regenerated from the source text of `ethosu/vela/cascade_builder.py` on
 every run.  `producer_stripe` / `consumer_stripe_input` are records (`Shape4D`): the attributes read are
 parameters; the `Shape4D([n, h, w, c])` result is the list passed to the constructor.
+
+`Gen/SrcGraphOptimiserUtil.lean` (source text of `ethosu/vela/graph_optimiser_util.py`): `needed_total_padding` and
+`calc_explicit_padding` against `Model/Box.lean`.  Python's `//` / `%` floor; the model uses Lean's `Int` `/` / `%`,
+which agree for a positive stride (hypothesis); stride 0 raises in Python (`_zero_stride_witness`).
+
+`Gen/SrcShape4d.lean` (source text of `ethosu/vela/shape4d.py`): the `Shape4D` methods `clip` (+ static `_clip_len`),
+`round_up` (class method), `div_round_up`, `__add__`, `__sub__`, `__floordiv__`, `__mod__`, `elements` against the
+component-wise helpers at the end of `Model/Box.lean`.  A `Shape4D` value is the 4-tuple of its fields
+(`SrcShape4d.nums`); `Shape4D(n, h, w, c)` with four numbers is taken as the plain named-tuple constructor
+(its `__new__` only special-cases a list argument).
 -/
 namespace VelaVerif.Props.C10Src
 open VelaVerif VelaVerif.PyRt VelaVerif.Cascade
 open VelaVerif.Gen.SrcCascadeBuilder
+open VelaVerif.Gen.SrcGraphOptimiserUtil
+open VelaVerif.Gen.SrcShape4d VelaVerif.SrcShape4d VelaVerif.Box
 
 /-- `rolling_buffer_shape(producer_stripe, consumer_stripe_input, consumer_overread)` for all natural
     sizes: `ZeroDivisionError` for a consumer stripe of height 0 (the model's `Err.value`), the model's
@@ -35,5 +50,76 @@ theorem src_rolling_buffer_shape_eq_model (pH pW pD cH cW over : Nat) :
     py_exec [rolling_buffer_shape, hover, hsum, hw, h1]
     rw [show (16 : Int) = ((16 : Nat) : Int) from rfl, h2]
     rfl
+
+/-- `needed_total_padding(input_size, stride, filter_size)` = `Box.neededTotalPadding`, all integers, `stride > 0` -/
+theorem src_needed_total_padding_eq_model (i s f : Int) (hs : 0 < s) :
+    needed_total_padding (.py i) (.py s) (.py f) = .ok (.py (Box.neededTotalPadding i s f)) := by
+  unfold Box.neededTotalPadding
+  py_exec [needed_total_padding]
+  py_finish
+
+/-- stride 0: Python raises `ZeroDivisionError`, the (totalised) model returns a number: outside the model's domain -/
+theorem src_needed_total_padding_zero_stride_witness :
+    needed_total_padding (.py 5) (.py 0) (.py 3) = .error .zerodiv ∧ Box.neededTotalPadding 5 0 3 = 0 := by
+  constructor
+  · py_exec [needed_total_padding]
+  · decide
+
+/-- `calc_explicit_padding(input_size, stride, filter_size, pad_before, pad_after)` = `Box.calcExplicitPadding`: all
+    integer sizes / paddings before, every natural padding after (the model's type), `stride > 0` -/
+theorem src_calc_explicit_padding_eq_model (i s f b : Int) (a : Nat) (hs : 0 < s) :
+    calc_explicit_padding (.py i) (.py s) (.py f) (.py b) (.py a) =
+      .ok (.py (Box.calcExplicitPadding i s f b a).1, .py (Box.calcExplicitPadding i s f b a).2) := by
+  unfold Box.calcExplicitPadding
+  py_exec [calc_explicit_padding]
+  py_finish
+
+/-! ## `Shape4D` arithmetic -/
+/-- `Shape4D.clip(self, offset, sub_shape)` (through the static `_clip_len`) = `Box.shapeClip`, all integers -/
+theorem src_shape4d_clip_eq_model (s o b : Coord) :
+    Shape4D__clip (nums s) (nums o) (nums b) = .ok (nums (shapeClip s o b)) := by
+  simp only [Shape4D__clip, nums, clip_len_py, shapeClip]
+  rfl
+/-- `Shape4D.round_up(lhs, rhs)` = `Box.shapeRoundUp`, all integers, positive quanta -/
+theorem src_shape4d_round_up_eq_model (a b : Coord) (hb : 0 < b.n ∧ 0 < b.h ∧ 0 < b.w ∧ 0 < b.c) :
+    Shape4D__round_up (nums a) (nums b) = .ok (nums (shapeRoundUp a b)) := by
+  simp only [Shape4D__round_up, nums, SrcNumericUtil.round_up_py _ _ hb.1, SrcNumericUtil.round_up_py _ _ hb.2.1,
+    SrcNumericUtil.round_up_py _ _ hb.2.2.1, SrcNumericUtil.round_up_py _ _ hb.2.2.2]
+  rfl
+/-- `Shape4D.div_round_up(self, rhs)` = `Box.shapeDivRoundUp`, all integers, positive divisors -/
+theorem src_shape4d_div_round_up_eq_model (a b : Coord) (hb : 0 < b.n ∧ 0 < b.h ∧ 0 < b.w ∧ 0 < b.c) :
+    Shape4D__div_round_up (nums a) (nums b) = .ok (nums (shapeDivRoundUp a b)) := by
+  simp only [Shape4D__div_round_up, nums, SrcNumericUtil.round_up_divide_py _ _ hb.1, SrcNumericUtil.round_up_divide_py _ _ hb.2.1,
+    SrcNumericUtil.round_up_divide_py _ _ hb.2.2.1, SrcNumericUtil.round_up_divide_py _ _ hb.2.2.2]
+  rfl
+/-- `Shape4D.__add__` = `Box.shapeAdd`, all integers -/
+theorem src_shape4d_add_eq_model (a b : Coord) :
+    Shape4D____add__ (nums a) (nums b) = .ok (nums (shapeAdd a b)) := by
+  unfold nums shapeAdd Coord.map2
+  py_exec [Shape4D____add__]
+/-- `Shape4D.__sub__` = `Box.shapeSub`, all integers -/
+theorem src_shape4d_sub_eq_model (a b : Coord) :
+    Shape4D____sub__ (nums a) (nums b) = .ok (nums (shapeSub a b)) := by
+  unfold nums shapeSub Coord.map2
+  py_exec [Shape4D____sub__]
+/-- `Shape4D.__floordiv__` = `Box.shapeFloordiv`, all integers, positive divisors -/
+theorem src_shape4d_floordiv_eq_model (a b : Coord) (hb : 0 < b.n ∧ 0 < b.h ∧ 0 < b.w ∧ 0 < b.c) :
+    Shape4D____floordiv__ (nums a) (nums b) = .ok (nums (shapeFloordiv a b)) := by
+  obtain ⟨h1, h2, h3, h4⟩ := hb
+  unfold nums shapeFloordiv Coord.map2
+  py_exec [Shape4D____floordiv__]
+  try py_finish
+/-- `Shape4D.__mod__` = `Box.shapeMod`, all integers, positive divisors -/
+theorem src_shape4d_mod_eq_model (a b : Coord) (hb : 0 < b.n ∧ 0 < b.h ∧ 0 < b.w ∧ 0 < b.c) :
+    Shape4D____mod__ (nums a) (nums b) = .ok (nums (shapeMod a b)) := by
+  obtain ⟨h1, h2, h3, h4⟩ := hb
+  unfold nums shapeMod Coord.map2
+  py_exec [Shape4D____mod__]
+  try py_finish
+/-- `Shape4D.elements()` = `Box.shapeElements`, all integers -/
+theorem src_shape4d_elements_eq_model (a : Coord) :
+    Shape4D__elements (nums a) = .ok (.py (shapeElements a)) := by
+  unfold nums shapeElements
+  py_exec [Shape4D__elements]
 
 end VelaVerif.Props.C10Src
